@@ -59,6 +59,7 @@ type Node struct {
 
 // SimError is the error type the tree returns: Sentinel is unique per (tree, call).
 type SimError struct {
+	Blank    bool // the error's text is empty or blanks (a tree may do that); it cannot carry a sentinel
 	Sentinel string
 	Injected bool
 	Method   string
@@ -99,6 +100,7 @@ type Run struct {
 	FaultTape *tape.Tape
 	CancelAt  int // call number before which ctx is cancelled (BreadthSearch honours it)
 	Cancel    context.CancelFunc
+	ErrText   int                 // text of injected errors: 0 unique sentinel, 1 "", 2 blanks, 3 sentinel + newline
 	Yield     func(method string) // scheduler hook (C06); nil otherwise
 	Errors    []*SimError
 	NoSites   bool
@@ -112,6 +114,7 @@ func (t *Run) Reset() {
 	t.CancelAt = 0
 	t.Cancel = nil
 	t.Errors = nil
+	t.ErrText = 0
 }
 
 // View is a node seen through a run: the xpath.Entry handed to the machine.
@@ -357,6 +360,14 @@ func (v *View) enter(method, arg string) error {
 	if fail {
 		c.Failed, c.Inj = true, true
 		e := &SimError{Sentinel: fmt.Sprintf("SIMFAULT%%d-%s-%d-%s", tr.Tag, c.N, method), Injected: true, Method: method, Call: c.N}
+		switch tr.ErrText {
+		case 1:
+			e.Sentinel, e.Blank = "", true
+		case 2:
+			e.Sentinel, e.Blank = "  ", true
+		case 3:
+			e.Sentinel += "\n"
+		}
 		tr.Errors = append(tr.Errors, e)
 		err = e
 	}
